@@ -119,11 +119,18 @@ func Decode(r io.Reader, binaryFrame bool) (*Packet, error) {
 	return decode(buf, binaryFrame)
 }
 
-func DecodeWithLen(r io.Reader, binaryFrame bool, len int) (*Packet, error) {
-	buf := make([]byte, len)
-	_, err := io.ReadFull(r, buf)
+func DecodeWithLen(r io.Reader, binaryFrame bool, n int) (*Packet, error) {
+	// n is declared by the peer. Read up to n bytes, growing with what
+	// really arrives, instead of allocating n bytes up front.
+	buf, err := io.ReadAll(io.LimitReader(r, int64(n)))
 	if err != nil {
 		return nil, err
+	}
+	if len(buf) < n {
+		if len(buf) == 0 {
+			return nil, io.EOF
+		}
+		return nil, io.ErrUnexpectedEOF
 	}
 	return decode(buf, binaryFrame)
 }
